@@ -14,7 +14,7 @@ case "$1" in
     mkdir -p $E
     git -C /repo worktree add --detach $E/repo HEAD >/dev/null 2>&1 || true
     sync_verif
-    [ -d $E/verif/harness/target ] || cp -al /verif/harness/target $E/verif/harness/target
+    [ -d $E/verif/harness/target ] || { cp -al /verif/harness/target $E/verif/harness/target; for f in $(find $E/verif/harness/target -name .cargo-lock); do rm -f $f; touch $f; done; }
     (cd $E/verif/harness && CARGO_NET_OFFLINE=true cargo build --release --offline --workspace 2>&1 | tail -1)
     ;;
   sync) sync_verif ;;
